@@ -3,7 +3,7 @@ import LyModel.Lyb.ChunkLemmasA
 Reader side of `lyb_skip_siblings`: on a top-level frame (no enclosing frame) whose chunk records carry the right
 counts — `content.length = inner × LYB_META_BYTES + size` for every chunk, all chunks but the last full — the loop
 `do { skip inner × META; lyb_read(NULL, written) } while (written)` consumes exactly the frame, **unless** the last
-of several chunks is `(size 0, inner > 0)` (finding F50 (a)).
+of several chunks is `(size 0, inner > 0)` (finding F69 (a)).
 -/
 namespace LyModel.Lyb
 
